@@ -22,7 +22,19 @@ class Op:
     op: Any = None             # operator for augstore
 
 
+def _is_frame(e: ast.AST, var: str) -> bool:
+    """the frame variable, or (for var 'df') the list's own frame `self.df`"""
+    if isinstance(e, ast.Name) and e.id == var:
+        return True
+    return var == "df" and isinstance(e, ast.Attribute) and e.attr == "df" and isinstance(e.value, ast.Name) and e.value.id == "self"
+
+
 def _col_of_target(t: ast.AST, var: str) -> Optional[str]:
+    if isinstance(t, ast.Attribute) and not isinstance(t.value, ast.Name) and _is_frame(t.value, var):
+        return t.attr
+    if isinstance(t, ast.Subscript) and not isinstance(t.value, ast.Name) and _is_frame(t.value, var) and \
+            isinstance(t.slice, ast.Constant) and isinstance(t.slice.value, str):
+        return t.slice.value
     if isinstance(t, ast.Attribute) and isinstance(t.value, ast.Name) and t.value.id == var:
         return t.attr
     if isinstance(t, ast.Subscript) and isinstance(t.value, ast.Name) and t.value.id == var and \
